@@ -586,7 +586,122 @@ def load_cases(r):
     return cases
 
 
-FAMILIES = ["byte", "utf8", "oct", "hex", "esc", "cat", "arr"]
+# --------------------------------------------------------------------------------------------
+# Several literals in one translation unit, used as expressions (string pool of decl.c stringdecl).
+POSITIONS = ("init", "ret", "arg")
+
+
+def pool_render(group, rot):
+    """group: accepted single-literal str cases of one target.  Literal i is used as a file-scope pointer initializer, a
+    returned value or a call argument (rotating), so each is materialised as an anonymous static object."""
+    src = [b"void h(const void *);\n"]
+    for i, c in enumerate(group):
+        lit, pos = lit_bytes(c), POSITIONS[(i + rot) % 3]
+        if pos == "init":
+            src.append(b"const void *p%d = %s;\n" % (i, lit))
+        elif pos == "ret":
+            src.append(b"const void *r%d(void) { return %s; }\n" % (i, lit))
+        else:
+            src.append(b"void a%d(void) { h(%s); }\n" % (i, lit))
+    return b"".join(src)
+
+
+def pool_observe(obj, targ, group, rot):
+    """For every literal of the group: the bytes of the data definition reached through the symbol its expression evaluates to."""
+    rc, out, err = vlib.cproc(obj, pool_render(group, rot), targ, timeout=60)
+    if rc != 0:
+        o = {"o": "reject", "diag": err.strip()[:160]} if rc == 1 and "error:" in err else {"o": "crash", "rc": rc, "stderr": err.strip()[-200:]}
+        return [o] * len(group)
+    try:
+        data, funcs = _parse(out)
+    except ilparse.ILSyntaxError as ex:
+        return [{"o": "malformed-output", "detail": str(ex)[:200]}] * len(group)
+    res = []
+    for i, c in enumerate(group):
+        pos = POSITIONS[(i + rot) % 3]
+        try:
+            if pos == "init":
+                b, rel = ilparse.data_image(data["p%d" % i])
+                if len(rel) != 1 or rel[0][0] != 0 or rel[0][3] != 0:
+                    raise KeyError("pointer initializer is not one plain address: %r" % (rel,))
+                sym = rel[0][2]
+            else:
+                fn = funcs[("r%d" if pos == "ret" else "a%d") % i]
+                insts = [x for blk in fn["blocks"] for x in blk["insts"]]
+                jumps = [blk["jump"] for blk in fn["blocks"] if blk["jump"]]
+                if pos == "ret":
+                    v = jumps[-1]["arg"] if len(jumps) == 1 and not insts else None
+                else:
+                    v = insts[0]["cargs"][0]["val"] if len(insts) == 1 and insts[0]["op"] == "call" and len(insts[0]["cargs"]) == 1 else None
+                if not v or v["t"] != "glob":
+                    raise KeyError("literal does not evaluate to the address of an object")
+                sym = v["n"]
+            b, rel = ilparse.data_image(data[sym])
+            if rel:
+                raise KeyError("relocation in string data")
+            res.append({"o": "ok", "pos": pos, "sym": sym, "bytes": b})
+        except (KeyError, IndexError, TypeError) as ex:
+            res.append({"o": "malformed-output", "pos": pos, "detail": str(ex)[:200]})
+    return res
+
+
+def pool_groups(ctx, cases, exhaustive):
+    """Glue only: which already-judged literals share a translation unit.  Exhaustive family "pool": per (target, prefix,
+    element count) every ordered pair and one unit with all of them plus the first one again (identical literals may share
+    an object); per (target, body) all five prefixes together.  Random literals: consecutive triples per target."""
+    ok = [c for c in cases if c["ctx"] == "str" and len(c["parts"]) == 1 and c.get("alen", -1) < 0
+          and c["decl"]["o"] == "ok" and c["impl"]["o"] == "ok" and c["impl"]["bytes"] == c["decl"]["bytes"]]
+    groups = []
+    if exhaustive:
+        ok = [c for c in ok if c.get("fam") == "pool"]
+        cls, bod = {}, {}
+        for c in ok:
+            cls.setdefault((c["targ"], c["parts"][0]["pfx"], c["decl"]["n"]), []).append(c)
+            bod.setdefault((c["targ"], tuple(c["parts"][0]["body"])), []).append(c)
+        for k in sorted(cls):
+            m = cls[k]
+            for a in m:
+                for b in m:
+                    if a is not b:
+                        groups.append([a, b])
+            if len(m) >= 2:
+                groups.append((m + [m[0]])[:4] if len(m) < 4 else m[:3] + [m[0]])
+                if len(m) > 3:
+                    groups.append(m[-3:] + [m[-1]])
+        for k in sorted(bod):
+            groups.append(bod[k])
+    else:
+        by_t = {}
+        for c in ok:
+            by_t.setdefault(c["targ"], []).append(c)
+        for t in sorted(by_t):
+            m = by_t[t]
+            groups += [m[a:a + 3] for a in range(0, len(m) - 1, 3)]
+    return [(g, i % 3) for i, g in enumerate(groups) if len(g) >= 2]
+
+
+def pool_pass(ctx, obj, cases, stats, exhaustive):
+    groups = pool_groups(ctx, cases, exhaustive)
+    n = 0
+    for (g, rot), res in zip(groups, vlib.pmap(lambda j: pool_observe(obj, j[0][0]["targ"], j[0], j[1]), groups, workers=16)):
+        for i, (c, o) in enumerate(zip(g, res)):
+            n += 1
+            ctx.count(vlib.sha(repr(("pool", rot, i, [case_key(x) for x in g]))), nontrivial=True)
+            if o["o"] == "ok" and o["bytes"] == c["decl"]["bytes"]:
+                continue
+            cl = "wrong-value" if o["o"] == "ok" else "rejected-valid" if o["o"] == "reject" else "crash"
+            unit = pool_render(g, rot).decode("latin-1")
+            ctx.violation("lit:pool-%s:%s:%s" % (POSITIONS[(i + rot) % 3], result_prefix(c) or "plain", cl),
+                          "literal %d of %s on %s: expected units %s, observed %s" % (
+                              i, unit.encode("unicode_escape").decode()[:300], c["targ"], c["decl"]["bytes"], json.dumps(o)[:200]),
+                          dict(case_view(c), pool_unit=unit, pool_index=i, observed=o))
+    stats["pool-literals"] = stats.get("pool-literals", 0) + n
+    ctx.cov["pool_units"] = ctx.cov.get("pool_units", 0) + len(groups)
+    ctx.validated(n)
+    return n
+
+
+FAMILIES = ["byte", "utf8", "oct", "hex", "esc", "cat", "arr", "pool"]
 WHYS = ["utf8", "utf8-beyond", "escape", "escape-range", "prefix-mix", "delimiter", "newline", "empty", "cp-range",
         "nul-or-cr-in-source", "wide-prefix-mix", "escape-in-unprefixed-part", "multi-char", "multibyte-plain", "ucn-not-modelled"]
 NCHUNKS = len(FAMILIES) * 3 * 5
@@ -661,6 +776,8 @@ def run(ctx):
     obs = observe_all(ctx, obj, cases)
     judge(ctx, cases, obs, stats)
     sanitizer_pass(ctx, cases, obs)
+    if pool_pass(ctx, obj, cases, stats, True) < 300:
+        raise vlib.MachineryError("pool family: too few literals were grouped into multi-literal translation units")
     ctx.validated(sum(1 for o in obs if o is not None))
     for c, o in [x for x in zip(cases, obs) if x[1] is not None][::len(cases) // 5 + 1]:
         ctx.sample({"source": lit_bytes(c).decode("latin-1"), "targ": c["targ"], "expected": c["decl"], "observed": o})
@@ -686,6 +803,7 @@ def run(ctx):
     obs2 = observe_all(ctx, obj, rnd)
     judge(ctx, rnd, obs2, stats)
     sanitizer_pass(ctx, rnd, obs2)
+    pool_pass(ctx, obj, rnd, stats, False)
     ctx.validated(sum(1 for o in obs2 if o is not None))
     ctx.cov["random_literals"] = len(rnd)
     for c, o in list(zip(rnd, obs2))[::len(rnd) // 2 + 1]:
